@@ -35,13 +35,13 @@ def cases(tier, seed):
         yield {"seed": seed, "idx": i, "hashseeds": seeds, "orders": orders}
 
 
-def spawn(src, pkg, store, mode, order, hashseed, trace=None, plugin="last"):
+def spawn(src, pkg, store, mode, order, hashseed, trace=None, plugin="last", late=""):
     envv = dict(os.environ, PYTHONPATH=os.pathsep.join([core.REPO, core.HERE]), PYTHONHASHSEED=str(hashseed),
                 PYTHONDONTWRITEBYTECODE="1", OPENBLAS_NUM_THREADS="1")
     envv.pop("VF_TRACE_FILE", None)
     if trace:
         envv["VF_TRACE_FILE"] = trace
-    p = subprocess.run([core.PY, CHILD, src, pkg, store, mode, json.dumps(order), plugin], env=envv, capture_output=True,
+    p = subprocess.run([core.PY, CHILD, src, pkg, store, mode, json.dumps(order), plugin, late], env=envv, capture_output=True,
                        text=True, timeout=300)
     line = next((l for l in p.stdout.split("\n") if l.startswith("VFRESULT ")), None)
     if p.returncode != 0 or line is None:
@@ -253,7 +253,10 @@ def run_case(case):
                     fq = [nodes[lasts[0]]["mod"], nodes[lasts[0]]["name"]]
                     q = [fq] + [x for x in q if x != fq]
                 k += 1
-                vm = spawn(src, prog["pkg"], sc.path("vstore%d" % k), "versions", q, hs if hs else 0, plugin=["last", "first"][k % 2])
+                # (every third interpreter registers one more memento function, elsewhere, between the imports and the first query)
+                vm = spawn(src, prog["pkg"], sc.path("vstore%d" % k), "versions", q, hs if hs else 0, plugin=["last", "first"][k % 2],
+                           late="late" if k % 3 == 2 else "")
+                out["obs"]["interpreters_with_a_late_registration"] += int(k % 3 == 2)
                 out["obs"]["interpreters_run"] += 1
                 maps[(hs, o, tuple(n for _, n in q))] = vm
         distinct = {json.dumps(v, sort_keys=True) for v in maps.values()}
@@ -281,7 +284,7 @@ def run_case(case):
         trace = sc.path("trace.txt")
         q = list(fns)
         rng.shuffle(q)
-        second = spawn(srcs[-1], prog["pkg"], store, "call", q, 12, trace=trace)
+        second = spawn(srcs[-1], prog["pkg"], store, "call", q, 12, trace=trace, late="late" if case["idx"] % 2 else "")
         out["obs"]["interpreters_run"] += 1
         ran = open(trace).read().strip().split("\n") if os.path.exists(trace) and os.path.getsize(trace) else []
         out["obs"]["second_process_runs_checked"] += 1
